@@ -666,13 +666,20 @@ func (b *Buffer) reverseRange(start, end int) {
 		return
 	}
 	info := b.Info[start:end]
-	pos := b.Pos[start:end]
 	L := len(info)
-	_ = pos[L-1] // BCE
 	for i := L/2 - 1; i >= 0; i-- {
 		opp := L - 1 - i
 		info[i], info[opp] = info[opp], info[i]
-		pos[i], pos[opp] = pos[opp], pos[i] // same length
+	}
+	// positions are only allocated by clearPositions : before that,
+	// Pos may be shorter than Info (for instance after a dotted circle insertion)
+	if len(b.Pos) < end {
+		return
+	}
+	pos := b.Pos[start:end]
+	for i := L/2 - 1; i >= 0; i-- {
+		opp := L - 1 - i
+		pos[i], pos[opp] = pos[opp], pos[i]
 	}
 }
 
